@@ -3,6 +3,7 @@ CONSTANTS
   Paths = {"p1", "p2"}
   Vals = {1, 2}
   MaxOps = 4
+  UpdatesOnly = FALSE
   Mutant = "sync_before_walk"
 INVARIANTS Converge NoLostUpdate SyncAfterSnapshot Backlog
 CHECK_DEADLOCK FALSE
